@@ -30,7 +30,8 @@ const (
 	UserLabel   = "containerd.io/snapshot/verif.user"
 	// ExtLabel lies OUTSIDE the containerd.io/snapshot namespace (a label a backend may use to find the layer).
 	ExtLabel = "example.com/verif.layer-source"
-	// BadEmpty / BadLong: names that cannot be bolt bucket names ("" and a string over bolt's key limit).
+	// BadEmpty: the empty string, which cannot be a bolt bucket name. (BadLong, a 40000-byte name, is accepted by
+	// bolt's CreateBucket and therefore not generated.)
 	BadEmpty = 1000
 	BadLong  = 1001
 )
